@@ -78,18 +78,18 @@ CLAIMED["C16"] = ("19 theorems on the proxy_dex model (pair, farms and energy fa
     "base minted on entry = base + locked burned on exit; energy drops by exactly burned*(unlock - now) incl. expired locks; into_part = floor share, aborts on zero, parts never sum past the whole. "
     "Tied to the real pair + two farm-with-locked-rewards + energy factory + proxy_dex by differential replay.", "19 C16",
     "Coq inductive invariant + characterisation theorems relative to stated callee laws + correspondence")
-CLAIMED["C11"] = ("24 theorems on the boosted-yields model (farm-boosted-yields on top of the generic weekly-rewards-splitting model; farm-level facts - emission, supply, user position, energy entry - are operation inputs read from the real farm): "
+CLAIMED["C11"] = ("26 theorems on the boosted-yields model (farm-boosted-yields on top of the generic weekly-rewards-splitting model; farm-level facts - emission, supply, user position, energy entry - are operation inputs read from the real farm): "
     "invariant with ghost ledger for every reachable state; per processed week the payment is exactly min(maxF*R*f/F, (R*cE*e/E + R*cF*f/F)/(cE+cF)) with floor divisions and cross-multiplied bounds against the rational formula, 0 below the minimums / with E, F or R = 0; "
     "claim range = last four completed weeks from the progress week on; (user, week) pairs pairwise distinct over any history; per week cuts = accumulated + remaining + paid + swept, paid <= cuts, frozen total never changes; slice = full*pct/10000 into the running week only; "
-    "collectUndistributed sweeps exactly weeks (last, current-5] once, never inside the window, admin only; every leftover ends in undistributed; 5-slot factor register refines week -> factors of the last accepted call; conservation. "
-    "Tied to dex/farm + energy-factory-mock by differential replay of all boosted views; monitors recompute the formula with the user's position BEFORE the operation.", "24 C11",
+    "collectUndistributed sweeps exactly weeks (last, current-5] once, never inside the window, admin only; every leftover ends in undistributed; 5-slot factor register refines week -> factors of the last accepted call; every accepted configuration has cE + cF > 0 and the formula never divides by zero in any reachable state (after the F7 repair); conservation. "
+    "Tied to dex/farm + energy-factory-mock by differential replay of all boosted views; monitors recompute the formula with the user's position BEFORE the operation.", "26 C11",
     "Coq inductive invariant with ghost ledger + characterisation/refinement theorems + correspondence")
 CLAIMED["C20"] = ("21 theorems: each view defined on the existing models (pair, farm, staking, penalty, price discovery) equals what the corresponding operation delivers in the same state, for all states satisfying the model invariants and all arguments: "
     "getAmountOut/getAmountIn vs both swap modes (quote = delivered / charged, refund = max - quote; view refuses => swap fails; liveness without fee destinations), getTokensForGivenPosition vs removeLiquidity (iff characterisation of the extra guards), "
     "farm calculateRewardsForGivenPosition = reward output of claimRewards incl. the in-query settlement, getPenaltyAmount = penalty charged by unlockEarly / reduceLockPeriod, getCurrentPhase/getCurrentPrice = phase gating and floor price of deposit/withdraw/redeem; views are pure. "
-    "farm-staking: C20_staking_rewards_partial (view = base part), C20_staking_difference (paid - view = boosted exactly), C20_staking_refuted (witness) = known finding F3. "
+    "farm-staking (after the F3 repair): the view with the claimer named, or by default for the recorded original owner, = the reward claimRewards pays; C20_staking_default_user says exactly when the default differs (transferred position: it quotes the owner's boosted part). "
     "Tied by view -> storage digest -> execute-in-same-block runs on the real pair, farm, farm-with-locked-rewards, farm-staking, energy factory and price discovery.", "21 C20",
-    "Coq view-equals-execution theorems on the subsystem models + correspondence + known-finding file")
+    "Coq view-equals-execution theorems on the subsystem models + correspondence")
 NOT_YET = {}
 
 def main():
